@@ -576,3 +576,43 @@ def c06(tier, seed):
                            "units_checked_at_xstream_join"]
     c.required_points = ["SUSPEND_AFTER_BLOCKED", "RESUME_AFTER_PUSH", "SCHED_STOP_AFTER_SIZE"]
     return c
+
+
+@prop("C11")
+def c11(tier, seed):
+    c = Check("C11", tier, seed)
+    q = tier == "quick"
+    c.rule = ("susp case = one scenario: 1-23 ULTs on secondary streams each doing up to N ABT_self_suspend round trips while "
+              "1-3 designated resumers (external threads, or ULTs on the primary stream) poll ABT_thread_get_state and call "
+              "ABT_thread_resume the moment BLOCKED is observable; direct case = one single-stream scenario (1-2 pools of any "
+              "kind, any predefined scheduler) with 2-11 initial workers executing thousands of random operations from "
+              "{yield_to, legacy thread_yield_to, create_to, revive_to, suspend_to, resume_yield_to, resume_suspend_to, "
+              "exit_to, resume_exit_to, yield, self_suspend, resume}; every directed switch posts (expected next unit, "
+              "expected caller state) and whichever code runs next on the stream checks it; distinct = distinct (variant, "
+              "delay, configuration signature)")
+    c.assumptions = ["one designated resumer per suspender (two resumers for one suspension would be a racy program)",
+                     "the directed-switch model is touched only by code running on the single stream under test"]
+    profiles = [hammer("SUSPEND_BEFORE_BLOCKED", "SUSPEND_AFTER_BLOCKED", "RESUME_AFTER_PUSH", "PUSH_BEFORE_LOCK",
+                       "POP_NONEMPTY_SEEN"), "uniform", "off", "heavy"]
+    for i, s in enumerate(seeds(seed, 5 if q else 40)):
+        args = ["--seed", s, "--mode", "susp", "--scenarios", 20 if q else 100, "--rounds", 300 if q else 3000,
+                "--delay", profiles[i % 4], "--watchdog", 90 if q else 900]
+        if i % 3 == 2:
+            args += ["--squeeze", 2]
+        c.add(Run("h_units", "mon", args, weight=5, tag="susp%d" % i))
+    for i, s in enumerate(seeds(seed, 3 if q else 24, salt=1)):
+        c.add(Run("h_units", "mon", ["--seed", s, "--mode", "direct", "--scenarios", 30 if q else 300, "--ops", 3000 if q else 20000,
+                                     "--delay", ["off", "uniform", "heavy"][i % 3], "--watchdog", 90 if q else 900], weight=2,
+                  tag="direct%d" % i))
+    for mode, args in (("susp", ["--scenarios", 6, "--rounds", 100]), ("direct", ["--scenarios", 10, "--ops", 1500])):
+        c.add(Run("h_units", "asan", ["--seed", seed + 31, "--mode", mode, "--watchdog", 90] + args, weight=4, tag="asan-" + mode))
+        c.add(Run("h_units", "tsan", ["--seed", seed + 32, "--mode", mode, "--watchdog", 90, "--delay", profiles[0]] +
+                  (["--scenarios", 3, "--rounds", 60] if mode == "susp" else ["--scenarios", 4, "--ops", 600]),
+                  weight=4, tag="tsan-" + mode))
+    c.nontrivial = lambda r: True
+    c.required_counters = ["suspend_resume_round_trips", "resumed_by_external_thread", "resumed_by_ult_on_other_stream",
+                           "op_yield_to", "op_thread_yield_to", "op_create_to", "op_revive_to", "op_suspend_to",
+                           "op_resume_yield_to", "op_resume_suspend_to", "op_exit_to", "op_resume_exit_to",
+                           "expectations_checked", "targets_never_started", "targets_already_started"]
+    c.required_points = ["SUSPEND_AFTER_BLOCKED", "RESUME_AFTER_PUSH"]
+    return c
